@@ -35,6 +35,7 @@ type procCase struct {
 	Cmd        int    `json:"cmd"`
 	CmdName    string `json:"cmd_name"`
 	Name       string `json:"plugin_name"`
+	Base       string `json:"file_base,omitempty"` // base name of the path given to NewCLIPlugin; "" = notation-<plugin_name>
 	File       string `json:"file"` // FExec FNoExec FMissing FDir
 	Exit       int    `json:"exit"`
 	SleepMs    int    `json:"sleep_ms"`
@@ -61,6 +62,13 @@ type procCase struct {
 	Step   int    `json:"history_step,omitempty"`
 
 	resTerm string
+}
+
+func (c *procCase) base() string {
+	if c.Base != "" {
+		return c.Base
+	}
+	return "notation-" + c.Name
 }
 
 func (c *procCase) outLen() int64 { return c.OutPB + int64(len(c.Out)) + c.OutPA }
@@ -133,8 +141,17 @@ func stderrOracle(b []byte) (term, facts string) {
 	if err := json.Unmarshal(b, &e); err != nil {
 		return "ENotJson", "notjson"
 	}
-	return CApp("EJson", CStr(string(e.ErrCode)), CStr(e.Message), CBool(e.Metadata == nil)),
-		fmt.Sprintf("json code=%q msg=%q md_nil=%v", e.ErrCode, e.Message, e.Metadata == nil)
+	return CApp("EJson", CStr(string(e.ErrCode)), CStr(e.Message), mdTerm(e.Metadata)),
+		fmt.Sprintf("json code=%q msg=%q md_nil=%v md_len=%d", e.ErrCode, e.Message, e.Metadata == nil, len(e.Metadata))
+}
+
+// mdTerm prints the metadata map of a structured error: None = nil map,
+// (Some [...]) = the entries sorted by key.
+func mdTerm(m map[string]string) string {
+	if m == nil {
+		return "None"
+	}
+	return CSome(CMap(m))
 }
 
 func (c *procCase) inputTerm() string {
@@ -156,7 +173,7 @@ func (c *procCase) inputTerm() string {
 		}
 		return CSome(CN(int64(v)))
 	}
-	return CApp("mk_pinput", cmdNames[c.Cmd], CStr(c.Name), c.File, CN(int64(c.Exit)), CN(int64(c.SleepMs)),
+	return CApp("mk_pinput", cmdNames[c.Cmd], CStr(c.Name), CStr(c.base()), c.File, CN(int64(c.Exit)), CN(int64(c.SleepMs)),
 		opt(c.DescMs), opt(c.DeadlineMs), CN(c.outLen()), outTerm, CN(c.errLen()), errTerm, CN(int64(c.BoundMs)))
 }
 
@@ -183,7 +200,7 @@ func classify(err error) (label, term string) {
 		if re.Err != nil {
 			msg = re.Err.Error()
 		}
-		return fmt.Sprintf("RReq %q %q", re.Code, msg), CApp("RReq", CStr(string(re.Code)), CStr(msg))
+		return fmt.Sprintf("RReq %q %q metadata=%v", re.Code, msg, re.Metadata), CApp("RReq", CStr(string(re.Code)), CStr(msg), mdTerm(re.Metadata))
 	case errors.As(err, &ef):
 		return "RExec", "RExec"
 	case errors.As(err, &mf):
@@ -218,7 +235,7 @@ func writeFileOrPanic(p string, b []byte, mode os.FileMode) {
 
 // install writes the plugin file and the behaviour of the stub into dir.
 func (c *procCase) install(dir string) string {
-	path := filepath.Join(dir, "notation-"+c.Name)
+	path := filepath.Join(dir, c.base())
 	os.Remove(filepath.Join(dir, "argv"))
 	os.Remove(filepath.Join(dir, "desc.pid"))
 	switch c.File {
